@@ -1,4 +1,2232 @@
 package main
 
-// genAggr: placeholder until the translation of this part of the library is written (an empty generated file).
-func genAggr() string { return "" }
+// Translation of Grouper.Aggregate / Grouper.QFrames (grouper.go), of the wrappers QFrame.GroupBy / QFrame.Distinct
+// with their helpers (qframe.go), of groupby.NewConfig (config/groupby) and of the aggregation loop, the
+// built-in aggregations and the Comparable (constructor and Compare) of internal/icolumn into Gallina
+// (coq/Gen/GenAggr.v, tie T1 for C04 / C03).
+//
+// The functions listed in gaSpecs are translated statement by statement into definitions ga_<name>.
+// coq/Proofs/GenAggrProofs.v proves every generated definition equal to the hand-written model of
+// coq/Model/Aggregate.v (aggregate, qframes, group_by_with, distinct_with, col_aggregate, i_sum, i_max, i_min)
+// under an explicit representation of the model's values as Go values, so that an edit of one of these Go
+// functions changes the generated text and breaks a named theorem T1_aggr_<name> of coq/Properties/T1Aggr.v.
+//
+// THE SCHEME (anything that does not fit is reported through problem(...); the block then keeps the text of the
+// golden copy, marked FALLBACK, so that the development still builds — the exit status says the tie is broken).
+//
+//	boundary    NOT translated, section variables instead (their Go signatures are text-matched):
+//	              col.Subset(ix)            -> col_Subset c ix : outcome (option C)
+//	              col.Aggregate(ixs, fn)    -> col_Aggregate c ixs fn : outcome (option C * option E)
+//	              col.Comparable(r, e, n)   -> col_Comparable c r e n : K
+//	              icolumn.New(ints)         -> icolumn_New ints : C
+//	              grouper.GroupBy(ix, cs)   -> grouper_GroupBy ix cs : outcome (list (list Z) * S)
+//	              grouper.Distinct(ix, cs)  -> grouper_Distinct ix cs : outcome (list Z)
+//	              f(&config), f a groupby.ConfigFunc -> cf_apply f config : outcome Config (value-result)
+//	              qerrors.New(op, reason, strings...) -> new_error op reason [strings] : E
+//	              qerrors.Propagate(op, err) -> propagate op err : E;  unknownCol(s) -> unknownCol s : bytes
+//	              fn == "literal" (fn an interface{} value) -> fn_eq_string fn literal
+//	              c.fnName(name) of an icolumn.Column -> icolumn_fnName name (body text-matched); an
+//	              interface{} value handed to qerrors.New as a parameter -> fn_text fn
+//	              index.NewAscending is the translated gc_NewAscending of GenFilterClause.v, integer.Max /
+//	              integer.Min the translated gf_integer_Max / gf_integer_Min of GenFuncs.v.
+//	            NOT translated at all: Comparable.Hash (unsafe.Pointer), the other column packages.
+//	values      int -> Z (exact: positions, lengths, counters; in the functions listed in gaWrapInts, whose ints
+//	            are data, + wraps: wrap64); uint32 -> Z, uint32(e) -> ga_u32 e; bool; string -> bytes;
+//	            error -> option E (nil = None); column.Column (an interface value) -> option C (nil = None, a
+//	            method call on nil panics: ga_deref); column.Comparable -> K; interface{} /
+//	            types.SliceFuncOrBuiltInId -> Fn; GroupStats -> S (zero s0; the conversion GroupStats(x) is the
+//	            identity); groupby.ConfigFunc -> CF; column.CompareResult -> Z with the constants
+//	            ga_column_LessThan .. ga_column_NotEqual = 0 .. 3 (the iota block is checked); an icolumn.Column /
+//	            icolumn.Comparable returned as an interface value goes through icolumn_Column / icolumn_Comparable.
+//	slices      []T -> list T; nil and the empty slice are both [].  make([]T, n [, c]) -> ga_make zero n c,
+//	            make([]T, 0, c) -> ga_make0 c (Panic for negative sizes); s[i] -> ga_index, s[i] = v -> ga_update
+//	            (Panic outside the range); append(s, x) -> s ++ [x]; s[1:] -> ga_tail1 (Panic when empty);
+//	            T{a, b} -> [a; b]; len(s) / s.Len() on an index.Int -> Z.of_nat (length s).
+//	maps        map[string]V -> list (bytes * V) in insertion order; m[k] = v appends, m[k] and v, ok := m[k]
+//	            find the LAST entry with the key (ga_map_get; the zero value when there is none);
+//	            make(map.., n) -> [] (the size hint is dropped).  Ranging over a map and len of a map are rejected,
+//	            so only lookups observe the list.  A package level map literal of functions is the association
+//	            list of its entries.
+//	structs     one Record ga_<T> per struct of gaRecSpecs with constructor ga_mk_<T>, projections ga_<T>_<f>,
+//	            setters ga_<T>_set_<f> and zero value ga_<T>_zero; an embedded field has its type's name;
+//	            x.f -> projection, x.f = e -> let x := setter; T{f: e} -> constructor, missing fields zero;
+//	            x.m(..) for a method m of an embedded interface field is x.Field.m(..).
+//	functions   a func value func([]int) int is a Coq function list Z -> outcome Z; the type switch
+//	            switch t := fn.(type) { case string: .. case func([]int) int: .. default: .. } is
+//	            match fn_cases fn with ga_FnString t => .. | ga_FnFunc t => .. | ga_FnOther => .. end
+//	            (fn_cases : Fn -> ga_fncase, a section variable: the reflection of the dynamic type).
+//	pointers    &x only as the argument of a ConfigFunc call or as a *[]int buffer argument of a translated
+//	            function (value-result: the callee returns the new pointee beside its result); *p reads the
+//	            current pointee, *p = e stores it; cap(*p) is abstracted: see ga_cap below.
+//	results     every function answers outcome T (Panic = Go panic); several results are a tuple.
+//	statements  x := e; a, b := e1, e2; a, b := f(..); v, ok := m[k]; var x T; x = e; x.f = e; s[i] = e;
+//	            m[k] = e; x++; x += e; f(&x).
+//	conditions  a && b, a || b are if-then-else (Go's short circuit).
+//	if          [init;] no return inside: do (assigned outer variables) <- (if c then .. else ..); rest
+//	            otherwise the rest of the block is continued inside every branch that falls through.
+//	range       for i, v := range X { body }: Definition ga_f_loopN := fix loop (l : list T) [(v_i : Z)]
+//	            (variables it mentions) {struct l}, numbered in order of completion.  A loop without return
+//	            answers the outer variables it assigns.  A loop with a return inside (only at the top level of
+//	            a function) also contains the statements that follow it.  The body must not store into X when
+//	            the value variable is used.
+//	for         for i := 0; i < e; i++ { body } with e free of the variables the body stores into and i not
+//	            stored into is the range loop over ga_iota e = [0; ..; e-1].  NO fuel anywhere: every loop is
+//	            structural over a list evaluated once.
+//	rejected    other for loops, break, continue, goto, labels, other switches, defer, closures, range over
+//	            maps or strings, stores through other pointers, shadowing assignments, everything else.
+
+import (
+	"bytes"
+	"flag"
+	"fmt"
+	"go/ast"
+	"go/printer"
+	"go/token"
+	"os"
+	"path/filepath"
+	"regexp"
+	"strings"
+)
+
+const gaRoot = "."
+const gaGroupbyPkg = "config/groupby"
+const gaIcolumnPkg = "internal/icolumn"
+
+type gaSpec struct{ pkg, fn string }
+
+// in emission order
+var gaSpecs = []gaSpec{
+	{gaGroupbyPkg, "NewConfig"},
+	{gaRoot, "QFrame.withErr"}, {gaRoot, "QFrame.withIndex"}, {gaRoot, "QFrame.Len"}, {gaRoot, "QFrame.ColumnNames"},
+	{gaRoot, "QFrame.columnsOrAll"}, {gaRoot, "QFrame.orders"}, {gaRoot, "QFrame.comparables"},
+	{gaRoot, "QFrame.checkColumns"}, {gaRoot, "QFrame.Distinct"}, {gaRoot, "QFrame.GroupBy"},
+	{gaRoot, "Grouper.Aggregate"}, {gaRoot, "Grouper.QFrames"},
+	{gaIcolumnPkg, "sum"}, {gaIcolumnPkg, "max"}, {gaIcolumnPkg, "min"}, {gaIcolumnPkg, "aggregations"},
+	{gaIcolumnPkg, "Column.subsetWithBuf"}, {gaIcolumnPkg, "Column.Aggregate"},
+	{gaIcolumnPkg, "Column.Comparable"}, {gaIcolumnPkg, "Comparable.Compare"},
+}
+
+// functions whose ints are data (64 bit wrap-around on +)
+var gaWrapInts = map[string]bool{gaIcolumnPkg + ":sum": true}
+
+var gaRecSpecs = []gaSpec{
+	{gaRoot, "namedColumn"}, {gaRoot, "QFrame"}, {gaRoot, "Grouper"}, {gaRoot, "Aggregation"}, {gaRoot, "Order"},
+	{gaGroupbyPkg, "Config"}, {gaIcolumnPkg, "Column"}, {gaIcolumnPkg, "Comparable"},
+}
+
+// the text the fixed vocabulary stands for (printed by go/printer; without body when the text has none)
+var gaVocabulary = []struct{ pkg, fn, text string }{
+	{"internal/index", "Int.Len", "func (ix Int) Len() int {\n\treturn len(ix)\n}"},
+	{"internal/index", "NewAscending", "func NewAscending(size uint32) Int"},
+	{"internal/math/integer", "Max", "func Max(x, y int) int {\n\tif x > y {\n\t\treturn x\n\t}\n\treturn y\n}"},
+	{"internal/math/integer", "Min", "func Min(x, y int) int {\n\tif x < y {\n\t\treturn x\n\t}\n\treturn y\n}"},
+	{"qerrors", "New", "func New(operation, reason string, params ...interface{}) Error"},
+	{"qerrors", "Propagate", "func Propagate(operation string, err error) Error"},
+	{gaRoot, "unknownCol", "func unknownCol(c string) string"},
+	{"internal/grouper", "GroupBy", "func GroupBy(ix index.Int, comparables []column.Comparable) ([]index.Int, GroupStats)"},
+	{"internal/grouper", "Distinct", "func Distinct(ix index.Int, comparables []column.Comparable) index.Int"},
+	{gaIcolumnPkg, "New", "func New(d []int) Column"},
+	{gaIcolumnPkg, "Column.fnName", "func (c Column) fnName(name string) string {\n\treturn fmt.Sprintf(\"%s.%s\", c.DataType(), name)\n}"},
+}
+
+// type declarations and interface methods the vocabulary stands for: pkg, type name, text that must occur
+var gaTypeTexts = []struct{ pkg, name, text string }{
+	{gaRoot, "GroupStats", "grouper.GroupStats"},
+	{gaGroupbyPkg, "ConfigFunc", "func(c *Config)"},
+	{"types", "SliceFuncOrBuiltInId", "interface{}"},
+	{"internal/index", "Int", "[]uint32"},
+	{"internal/column", "CompareResult", "byte"},
+	{"internal/column", "Column", "Subset(index index.Int) Column"},
+	{"internal/column", "Column", "Comparable(reverse, equalNull, nullLast bool) Comparable"},
+	{"internal/column", "Column", "Aggregate(indices []index.Int, fn interface{}) (Column, error)"},
+}
+
+const gaPreamble = `(* GENERATED by tools/qf2coq (aggr.go) from grouper.go, qframe.go (GroupBy, Distinct and their helpers),
+   config/groupby and internal/icolumn (Aggregate, subsetWithBuf, aggregations.go, Comparable, Compare) of
+   tobgu/qframe — do not edit.
+   One Record ga_<T> per struct, one definition ga_<function> per translated Go function, one Definition
+   ga_<function>_loopN (a fix over the ranged list) per loop; the scheme is described at the top of
+   tools/qf2coq/aggr.go.  C = a non-nil column.Column, E = error value, Fn = interface{} (aggregation function or
+   name), S = GroupStats, K = column.Comparable, CF = groupby.ConfigFunc are abstract; row ids (uint32) and ints
+   are Z; a map[string]V is the association list of its insertions (the LAST entry of a key is its value).
+   Every function answers outcome T (Panic = Go panic); there is no fuel: every loop ranges over a list. *)
+From QF Require Import Base.Prelude Gen.GenFuncs Gen.GenFilterClause.
+Local Open Scope Z_scope.
+
+(* uint32(e) *)
+Definition ga_u32 (x : Z) : Z := x mod 4294967296.
+(* make([]T, n, c), make([]T, 0, c), s[i], s[i] = v, s[1:], for i := 0; i < n; i++ *)
+Definition ga_make {T : Type} (zero : T) (n c : Z) : outcome (list T) :=
+  if (n <? 0) || (c <? n) then Panic else Ok (repeat zero (Z.to_nat n)).
+Definition ga_make0 {T : Type} (c : Z) : outcome (list T) :=
+  if c <? 0 then Panic else Ok [].
+Definition ga_index {T : Type} (s : list T) (i : Z) : outcome T :=
+  if i <? 0 then Panic else idx s (Z.to_nat i).
+Definition ga_update {T : Type} (s : list T) (i : Z) (v : T) : outcome (list T) :=
+  if i <? 0 then Panic else do _ <- idx s (Z.to_nat i); Ok (set_nth s (Z.to_nat i) v).
+Definition ga_tail1 {T : Type} (s : list T) : outcome (list T) :=
+  match s with [] => Panic | _ :: r => Ok r end.
+Definition ga_iota (n : Z) : list Z := map Z.of_nat (seq 0 (Z.to_nat n)).
+(* x == nil for an error or an interface value; the receiver of a method call on an interface value *)
+Definition ga_isnil {T : Type} (p : option T) : bool := match p with None => true | Some _ => false end.
+Definition ga_deref {T : Type} (p : option T) : outcome T := match p with Some x => Ok x | None => Panic end.
+(* map[string]V: m[k] (with and without ok), m[k] = v *)
+Fixpoint ga_map_find {V : Type} (m : list (bytes * V)) (k : bytes) (acc : option V) : option V :=
+  match m with
+  | [] => acc
+  | e :: r => ga_map_find r k (if bytes_eqb (fst e) k then Some (snd e) else acc)
+  end.
+Definition ga_map_get {V : Type} (zero : V) (m : list (bytes * V)) (k : bytes) : V * bool :=
+  match ga_map_find m k None with Some v => (v, true) | None => (zero, false) end.
+Definition ga_map_set {V : Type} (m : list (bytes * V)) (k : bytes) (v : V) : list (bytes * V) := m ++ [(k, v)].
+(* column.CompareResult: const ( LessThan CompareResult = iota; GreaterThan; Equal; NotEqual ) *)
+Definition ga_column_LessThan : Z := 0.
+Definition ga_column_GreaterThan : Z := 1.
+Definition ga_column_Equal : Z := 2.
+Definition ga_column_NotEqual : Z := 3.
+(* the dynamic type of an interface{} value as the type switch of Column.Aggregate sees it *)
+Inductive ga_fncase : Type :=
+| ga_FnString (s : bytes)
+| ga_FnFunc (f : list Z -> outcome Z)
+| ga_FnOther.
+(* a []int whose address is taken (a reusable buffer) is the pair (elements, capacity); p *[]int is the current
+   pointee: *p -> fst p, cap( *p) -> snd p, *p = make([]int, 0, n) -> p := ([], n) *)
+
+Section GenAggr.
+Context {C E Fn S K CF : Type}.
+Variable s0 : S.                                              (* the zero GroupStats *)
+Variable new_error : bytes -> bytes -> list bytes -> E.       (* qerrors.New(operation, reason, params...) *)
+Variable propagate : bytes -> option E -> E.                  (* qerrors.Propagate(operation, err) *)
+Variable unknownCol : bytes -> bytes.                         (* unknownCol(c) *)
+Variable fn_eq_string : Fn -> bytes -> bool.                  (* fn == "literal" *)
+Variable fn_cases : Fn -> ga_fncase.                          (* switch t := fn.(type) *)
+Variable col_Subset : C -> list Z -> outcome (option C).      (* col.Subset(index) *)
+Variable col_Aggregate : C -> list (list Z) -> Fn -> outcome (option C * option E).   (* col.Aggregate(indices, fn) *)
+Variable col_Comparable : C -> bool -> bool -> bool -> K.     (* col.Comparable(reverse, equalNull, nullLast) *)
+Variable icolumn_New : list Z -> C.                           (* icolumn.New(d) *)
+Variable icolumn_Column : list Z -> C.                        (* icolumn.Column{data: d} as a column.Column *)
+Variable grouper_GroupBy : list Z -> list K -> outcome (list (list Z) * S).   (* grouper.GroupBy *)
+Variable grouper_Distinct : list Z -> list K -> outcome (list Z).             (* grouper.Distinct *)
+Variable icolumn_fnName : bytes -> bytes.                     (* c.fnName(name) of an icolumn.Column c *)
+Variable fn_text : Fn -> bytes.                               (* an interface{} value as a qerrors.New parameter *)
+
+`
+
+// ------------------------------------------------------------------ types
+
+type gaT struct {
+	k     string // int u32 bool string err col fn stats cf cmp func buf slice map rec tuple nil bad
+	el    *gaT
+	rec   string
+	parts []*gaT
+}
+
+func gaK(k string) *gaT           { return &gaT{k: k} }
+func gaSlice(el *gaT) *gaT        { return &gaT{k: "slice", el: el} }
+func gaMap(el *gaT) *gaT          { return &gaT{k: "map", el: el} }
+func gaRecT(n string) *gaT        { return &gaT{k: "rec", rec: n} }
+func gaTupleT(parts ...*gaT) *gaT { return &gaT{k: "tuple", parts: parts} }
+
+var gaBad = gaK("bad")
+
+func (t *gaT) same(u *gaT) bool {
+	if t.k != u.k || t.rec != u.rec || len(t.parts) != len(u.parts) {
+		return false
+	}
+	if (t.el == nil) != (u.el == nil) || t.el != nil && !t.el.same(u.el) {
+		return false
+	}
+	for i := range t.parts {
+		if !t.parts[i].same(u.parts[i]) {
+			return false
+		}
+	}
+	return true
+}
+
+func (t *gaT) String() string {
+	switch t.k {
+	case "slice":
+		return "[]" + t.el.String()
+	case "map":
+		return "map[string]" + t.el.String()
+	case "rec":
+		return t.rec
+	case "tuple":
+		var p []string
+		for _, x := range t.parts {
+			p = append(p, x.String())
+		}
+		return "(" + strings.Join(p, ", ") + ")"
+	}
+	return t.k
+}
+
+func (t *gaT) coq() string {
+	switch t.k {
+	case "int", "u32", "cres":
+		return "Z"
+	case "bool":
+		return "bool"
+	case "string":
+		return "bytes"
+	case "err":
+		return "(option E)"
+	case "col":
+		return "(option C)"
+	case "fn":
+		return "Fn"
+	case "stats":
+		return "S"
+	case "cf":
+		return "CF"
+	case "cmp":
+		return "K"
+	case "func":
+		return "(list Z -> outcome Z)"
+	case "buf":
+		return "(list Z * Z)"
+	case "slice":
+		return "(list " + t.el.coq() + ")"
+	case "map":
+		return "(list (bytes * " + t.el.coq() + "))"
+	case "rec":
+		return "ga_" + t.rec
+	case "tuple":
+		var p []string
+		for _, x := range t.parts {
+			p = append(p, x.coq())
+		}
+		return "(" + strings.Join(p, " * ") + ")"
+	}
+	return "?"
+}
+
+func (t *gaT) zero() (string, bool) {
+	switch t.k {
+	case "int", "u32":
+		return "0", true
+	case "cres":
+		return "ga_column_LessThan", true
+	case "bool":
+		return "false", true
+	case "string":
+		return "(@nil N)", true
+	case "err", "col":
+		return "None", true
+	case "stats":
+		return "s0", true
+	case "func": // a nil func: calling it panics
+		return "(fun _ : list Z => @Panic Z)", true
+	case "slice", "map":
+		return "[]", true
+	case "rec":
+		return "ga_" + t.rec + "_zero", true
+	case "buf":
+		return "([], 0)", true
+	}
+	return "", false
+}
+
+type gaField struct {
+	name string
+	ty   *gaT
+}
+
+type gaRec struct {
+	pkg, name string
+	fields    []gaField
+	src       string
+	ok        bool
+}
+
+var gaRecs map[string]*gaRec // by name
+
+func gaSrc(fset *token.FileSet, n ast.Node) string {
+	var b bytes.Buffer
+	printer.Fprint(&b, fset, n)
+	return b.String()
+}
+
+// gaResolve maps the text of a Go type expression to a translation type
+func gaResolve(pkg, src string) *gaT {
+	if strings.HasPrefix(src, "[]") {
+		el := gaResolve(pkg, src[2:])
+		if el.k == "bad" {
+			return gaBad
+		}
+		return gaSlice(el)
+	}
+	if strings.HasPrefix(src, "...") {
+		el := gaResolve(pkg, src[3:])
+		if el.k == "bad" {
+			return gaBad
+		}
+		return gaSlice(el)
+	}
+	if strings.HasPrefix(src, "map[string]") {
+		el := gaResolve(pkg, src[len("map[string]"):])
+		if el.k == "bad" {
+			return gaBad
+		}
+		return gaMap(el)
+	}
+	switch src {
+	case "int":
+		return gaK("int")
+	case "uint32":
+		return gaK("u32")
+	case "bool":
+		return gaK("bool")
+	case "string":
+		return gaK("string")
+	case "error":
+		return gaK("err")
+	case "index.Int":
+		return gaSlice(gaK("u32"))
+	case "column.Column":
+		return gaK("col")
+	case "column.Comparable":
+		return gaK("cmp")
+	case "column.CompareResult":
+		return gaK("cres")
+	case "interface{}", "types.SliceFuncOrBuiltInId":
+		return gaK("fn")
+	case "func([]int) int":
+		return gaK("func")
+	case "*[]int":
+		return gaK("buf")
+	}
+	switch pkg {
+	case gaRoot:
+		switch src {
+		case "GroupStats":
+			return gaK("stats")
+		case "groupby.ConfigFunc":
+			return gaK("cf")
+		case "groupby.Config":
+			return gaRecT("Config")
+		case "QFrame", "Grouper", "Aggregation", "namedColumn", "Order":
+			return gaRecT(src)
+		}
+	case gaGroupbyPkg:
+		switch src {
+		case "ConfigFunc":
+			return gaK("cf")
+		case "Config":
+			return gaRecT("Config")
+		}
+	case gaIcolumnPkg:
+		switch src {
+		case "Column":
+			return gaRecT("icolumn_Column")
+		case "Comparable":
+			return gaRecT("icolumn_Comparable")
+		}
+	}
+	return gaBad
+}
+
+func gaFindType(p *pkgInfo, name string) (ast.Expr, bool) {
+	var names []string
+	for n := range p.files {
+		names = append(names, n)
+	}
+	for _, n := range names {
+		for _, d := range p.files[n].Decls {
+			gd, ok := d.(*ast.GenDecl)
+			if !ok || gd.Tok != token.TYPE {
+				continue
+			}
+			for _, s := range gd.Specs {
+				ts := s.(*ast.TypeSpec)
+				if ts.Name.Name == name {
+					return ts.Type, true
+				}
+			}
+		}
+	}
+	return nil, false
+}
+
+func gaCoqRecName(sp gaSpec) string {
+	if sp.pkg == gaIcolumnPkg {
+		return "icolumn_" + sp.name()
+	}
+	return sp.name()
+}
+
+func (sp gaSpec) name() string { return sp.fn }
+
+func gaLoadRec(sp gaSpec) *gaRec {
+	r := &gaRec{pkg: sp.pkg, name: sp.fn}
+	if sp.pkg == gaIcolumnPkg {
+		r.name = "icolumn_" + sp.fn
+	}
+	p := loadPkg(sp.pkg)
+	e, ok := gaFindType(p, sp.fn)
+	if !ok {
+		problem("aggregate translation: type %s not found in %s", sp.fn, sp.pkg)
+		return r
+	}
+	st, ok := e.(*ast.StructType)
+	if !ok {
+		problem("aggregate translation: type %s of %s is not a struct", sp.fn, sp.pkg)
+		return r
+	}
+	r.ok = true
+	r.src = "type " + sp.fn + " " + gaSrc(p.fset, st)
+	for _, fl := range st.Fields.List {
+		src := gaSrc(p.fset, fl.Type)
+		ty := gaResolve(sp.pkg, src)
+		if ty.k == "bad" {
+			problem("aggregate translation: field of %s has a type outside the scheme: %s", sp.fn, src)
+			r.ok = false
+			continue
+		}
+		if len(fl.Names) == 0 { // embedded: the name of the type
+			n := src[strings.LastIndex(src, ".")+1:]
+			r.fields = append(r.fields, gaField{n, ty})
+		}
+		for _, n := range fl.Names {
+			r.fields = append(r.fields, gaField{n.Name, ty})
+		}
+	}
+	return r
+}
+
+func (r *gaRec) field(name string) (gaField, bool) {
+	for _, f := range r.fields {
+		if f.name == name {
+			return f, true
+		}
+	}
+	return gaField{}, false
+}
+
+func gaClean(s string) string {
+	s = strings.ReplaceAll(s, "(*", "( *")
+	s = strings.ReplaceAll(s, "*)", "* )")
+	s = strings.ReplaceAll(s, "\"", "'")
+	return s
+}
+
+func (r *gaRec) text() string {
+	var b strings.Builder
+	pk := r.pkg
+	if pk == gaRoot {
+		pk = "qframe"
+	}
+	n := "ga_" + r.name
+	fmt.Fprintf(&b, "(* %s\n%s *)\n", pk, gaClean(r.src))
+	fmt.Fprintf(&b, "Record %s := ga_mk_%s {\n", n, r.name)
+	for i, f := range r.fields {
+		sep := ";"
+		if i == len(r.fields)-1 {
+			sep = " }."
+		}
+		fmt.Fprintf(&b, "  %s_%s : %s%s\n", n, f.name, f.ty.coq(), sep)
+	}
+	for i, f := range r.fields {
+		fmt.Fprintf(&b, "Definition %s_set_%s (r : %s) (v : %s) : %s :=\n  ga_mk_%s", n, f.name, n, f.ty.coq(), n, r.name)
+		for j, g := range r.fields {
+			if i == j {
+				b.WriteString(" v")
+			} else {
+				fmt.Fprintf(&b, " (%s_%s r)", n, g.name)
+			}
+		}
+		b.WriteString(".\n")
+	}
+	zs := []string{}
+	zok := true
+	for _, f := range r.fields {
+		z, ok := f.ty.zero()
+		if !ok {
+			zok = false
+		}
+		zs = append(zs, z)
+	}
+	if zok {
+		fmt.Fprintf(&b, "Definition %s_zero : %s := ga_mk_%s %s.\n", n, n, r.name, strings.Join(zs, " "))
+	}
+	return b.String()
+}
+
+// ------------------------------------------------------------------ translation state
+
+type gaVar struct {
+	name string // Go name
+	coq  string
+	ty   *gaT
+}
+
+type gaFunc struct {
+	spec   gaSpec
+	fd     *ast.FuncDecl
+	coq    string
+	recv   *gaVar
+	params []gaVar
+	res    *gaT // a tuple for several results
+	text   string
+	ok     bool
+	done   bool
+}
+
+var gaFuncs map[string]*gaFunc // by "pkg:Name"
+
+type gaCtx struct {
+	vars []gaVar
+	top  bool // the continuation of this block is the tail of the function
+}
+
+type gaTr struct {
+	p      *pkgInfo
+	f      *gaFunc
+	bad    bool
+	ntmp   int
+	loops  []string
+	nloops int
+	addrOf map[string]bool // local variables whose address is taken
+}
+
+func (t *gaTr) fail(n ast.Node, format string, a ...interface{}) {
+	if !t.bad {
+		pos := ""
+		if n != nil {
+			pos = t.p.fset.Position(n.Pos()).String()
+			pos = strings.TrimPrefix(pos, repo+"/") + ": "
+		}
+		problem("aggregate translation of %s: %s%s", t.f.spec.fn, pos, fmt.Sprintf(format, a...))
+	}
+	t.bad = true
+}
+
+func (t *gaTr) src(n ast.Node) string { return gaSrc(t.p.fset, n) }
+
+func (t *gaTr) tmp() string {
+	t.ntmp++
+	return fmt.Sprintf("t%d", t.ntmp)
+}
+
+func (c gaCtx) lookup(name string) (gaVar, bool) {
+	for i := len(c.vars) - 1; i >= 0; i-- {
+		if c.vars[i].name == name {
+			return c.vars[i], true
+		}
+	}
+	return gaVar{}, false
+}
+
+func gaTuple(parts []string) string {
+	if len(parts) == 0 {
+		return "tt"
+	}
+	if len(parts) == 1 {
+		return parts[0]
+	}
+	return "(" + strings.Join(parts, ", ") + ")"
+}
+
+// a pattern for do / let: '(a, b) for several names
+func gaPattern(parts []string) string {
+	if len(parts) == 0 {
+		return "_"
+	}
+	if len(parts) == 1 {
+		return parts[0]
+	}
+	return "'(" + strings.Join(parts, ", ") + ")"
+}
+
+func gaTypeTuple(parts []string) string {
+	if len(parts) == 0 {
+		return "unit"
+	}
+	if len(parts) == 1 {
+		return parts[0]
+	}
+	return "(" + strings.Join(parts, " * ") + ")"
+}
+
+func gaIndent(s string) string {
+	lines := strings.Split(strings.TrimRight(s, "\n"), "\n")
+	for i := range lines {
+		lines[i] = "  " + lines[i]
+	}
+	return strings.Join(lines, "\n")
+}
+
+func gaMentions(text, tok string) bool {
+	re := regexp.MustCompile(`(^|[^A-Za-z0-9_'])` + regexp.QuoteMeta(tok) + `($|[^A-Za-z0-9_'])`)
+	return re.MatchString(text)
+}
+
+func (t *gaTr) resolve(e ast.Expr) *gaT {
+	ty := gaResolve(t.f.spec.pkg, t.src(e))
+	if ty.k == "bad" {
+		t.fail(e, "type outside the scheme: %s", t.src(e))
+	}
+	return ty
+}
+
+// coerce checks that a value of type have can stand where want is expected
+func (t *gaTr) coerce(n ast.Node, text string, have, want *gaT) string {
+	if have.k == "bad" || want.k == "bad" {
+		return text
+	}
+	if have.same(want) {
+		return text
+	}
+	if have.k == "nil" && (want.k == "err" || want.k == "col") {
+		return "None"
+	}
+	if have.k == "nil" && (want.k == "slice" || want.k == "map") {
+		return "[]"
+	}
+	if have.k == "int" && want.k == "u32" && strings.Trim(text, "0123456789") == "" { // an untyped constant
+		return text
+	}
+	if have.k == "string" && want.k == "fn" {
+		t.fail(n, "a string converted to interface{} is outside the scheme")
+		return text
+	}
+	t.fail(n, "a value of type %s stands where %s is expected: %s", have, want, t.src(n))
+	return text
+}
+
+func (t *gaTr) bind(pre *[]string, text string, ty *gaT) (string, *gaT) {
+	v := t.tmp()
+	*pre = append(*pre, fmt.Sprintf("do %s <- %s;", v, text))
+	return v, ty
+}
+
+// ------------------------------------------------------------------ expressions
+
+func (t *gaTr) expr(e ast.Expr, c gaCtx, pre *[]string) (string, *gaT) {
+	switch x := e.(type) {
+	case *ast.ParenExpr:
+		return t.expr(x.X, c, pre)
+	case *ast.BasicLit:
+		switch x.Kind {
+		case token.INT:
+			if strings.Trim(x.Value, "0123456789") == "" {
+				return x.Value, gaK("int")
+			}
+		case token.STRING:
+			if len(x.Value) >= 2 && (x.Value[0] == '"' || x.Value[0] == '`') && !strings.Contains(x.Value, "\\") {
+				return coqBytes(x.Value[1 : len(x.Value)-1]), gaK("string")
+			}
+		}
+		t.fail(e, "literal outside the scheme: %s", x.Value)
+		return "0", gaBad
+	case *ast.Ident:
+		switch x.Name {
+		case "nil":
+			return "None", gaK("nil")
+		case "true", "false":
+			if _, shadowed := c.lookup(x.Name); !shadowed {
+				return x.Name, gaK("bool")
+			}
+		}
+		v, ok := c.lookup(x.Name)
+		if !ok {
+			if g := gaFuncs[t.f.spec.pkg+":"+x.Name]; g != nil && g.done && g.ok && g.res != nil && g.fd == nil {
+				return g.coq, g.res // a translated package level table
+			}
+			t.fail(e, "unknown identifier %s", x.Name)
+			return "0", gaBad
+		}
+		return v.coq, v.ty
+	case *ast.SelectorExpr:
+		if id, ok := x.X.(*ast.Ident); ok && id.Name == "column" {
+			if _, isVar := c.lookup("column"); !isVar {
+				switch x.Sel.Name {
+				case "LessThan", "GreaterThan", "Equal", "NotEqual":
+					return "ga_column_" + x.Sel.Name, gaK("cres")
+				}
+			}
+		}
+		y, ty := t.expr(x.X, c, pre)
+		if ty.k == "rec" {
+			if f, ok := gaRecs[ty.rec].field(x.Sel.Name); ok {
+				return fmt.Sprintf("(ga_%s_%s %s)", ty.rec, f.name, y), f.ty
+			}
+		}
+		t.fail(e, "selector outside the scheme: %s", t.src(e))
+		return "0", gaBad
+	case *ast.UnaryExpr:
+		switch x.Op {
+		case token.NOT:
+			y, ty := t.expr(x.X, c, pre)
+			t.coerce(x.X, y, ty, gaK("bool"))
+			return "(negb " + y + ")", gaK("bool")
+		case token.SUB:
+			y, ty := t.expr(x.X, c, pre)
+			t.coerce(x.X, y, ty, gaK("int"))
+			return "(- " + y + ")", gaK("int")
+		}
+	case *ast.StarExpr:
+		y, ty := t.expr(x.X, c, pre)
+		if ty.k == "buf" {
+			return "(fst " + y + ")", gaSlice(gaK("int"))
+		}
+	case *ast.IndexExpr:
+		s, ty := t.expr(x.X, c, pre)
+		i, ti := t.expr(x.Index, c, pre)
+		switch ty.k {
+		case "slice":
+			if ti.k != "u32" {
+				t.coerce(x.Index, i, ti, gaK("int"))
+			}
+			return t.bind(pre, fmt.Sprintf("ga_index %s %s", s, i), ty.el)
+		case "map":
+			t.coerce(x.Index, i, ti, gaK("string"))
+			z, ok := ty.el.zero()
+			if !ok {
+				t.fail(e, "map lookup of a value type without zero in the scheme")
+			}
+			return fmt.Sprintf("(fst (ga_map_get %s %s %s))", z, s, i), ty.el
+		}
+		t.fail(e, "index into something that is not a slice or a map: %s", t.src(e))
+		return "0", gaBad
+	case *ast.SliceExpr:
+		if x.Low != nil && x.High == nil && x.Max == nil && t.src(x.Low) == "1" {
+			s, ty := t.expr(x.X, c, pre)
+			if ty.k == "slice" {
+				return t.bind(pre, "ga_tail1 "+s, ty)
+			}
+		}
+		if x.Low == nil && x.High != nil && x.Max == nil && t.src(x.High) == "0" {
+			_, ty := t.expr(x.X, c, pre)
+			if ty.k == "slice" {
+				return "[]", ty
+			}
+		}
+		t.fail(e, "slice expression outside the scheme: %s", t.src(e))
+		return "[]", gaBad
+	case *ast.CompositeLit:
+		return t.composite(x, c, pre)
+	case *ast.BinaryExpr:
+		return t.binary(x, c, pre)
+	case *ast.CallExpr:
+		return t.call(x, c, pre)
+	}
+	t.fail(e, "expression outside the scheme: %s", t.src(e))
+	return "0", gaBad
+}
+
+func (t *gaTr) composite(x *ast.CompositeLit, c gaCtx, pre *[]string) (string, *gaT) {
+	ty := t.resolve(x.Type)
+	switch ty.k {
+	case "slice":
+		var parts []string
+		for _, el := range x.Elts {
+			if _, isKV := el.(*ast.KeyValueExpr); isKV {
+				t.fail(el, "slice literal with keys")
+				continue
+			}
+			y, te := t.expr(el, c, pre)
+			parts = append(parts, t.coerce(el, y, te, ty.el))
+		}
+		return "[" + strings.Join(parts, "; ") + "]", ty
+	case "rec":
+		r := gaRecs[ty.rec]
+		vals := map[string]string{}
+		for _, el := range x.Elts {
+			kv, ok := el.(*ast.KeyValueExpr)
+			if !ok {
+				t.fail(el, "composite literal without field names")
+				continue
+			}
+			name := t.src(kv.Key)
+			f, found := r.field(name)
+			if !found {
+				t.fail(el, "unknown field %s", name)
+				continue
+			}
+			y, tv := t.expr(kv.Value, c, pre)
+			vals[name] = t.coerce(kv.Value, y, tv, f.ty)
+		}
+		parts := []string{"ga_mk_" + r.name}
+		for _, f := range r.fields {
+			if v, ok := vals[f.name]; ok {
+				parts = append(parts, v)
+			} else if z, ok := f.ty.zero(); ok {
+				parts = append(parts, z)
+			} else {
+				t.fail(x, "field %s without a value has no zero in the scheme", f.name)
+			}
+		}
+		return "(" + strings.Join(parts, " ") + ")", ty
+	}
+	t.fail(x, "composite literal outside the scheme: %s", t.src(x))
+	return "0", gaBad
+}
+
+func (t *gaTr) binary(x *ast.BinaryExpr, c gaCtx, pre *[]string) (string, *gaT) {
+	if x.Op == token.LAND || x.Op == token.LOR {
+		a, ta := t.expr(x.X, c, pre)
+		t.coerce(x.X, a, ta, gaK("bool"))
+		var preB []string
+		b, tb := t.expr(x.Y, c, &preB)
+		t.coerce(x.Y, b, tb, gaK("bool"))
+		if len(preB) == 0 {
+			if x.Op == token.LAND {
+				return fmt.Sprintf("(if %s then %s else false)", a, b), gaK("bool")
+			}
+			return fmt.Sprintf("(if %s then true else %s)", a, b), gaK("bool")
+		}
+		v := t.tmp()
+		right := "(" + strings.Join(preB, " ") + " Ok " + b + ")"
+		if x.Op == token.LAND {
+			*pre = append(*pre, fmt.Sprintf("do %s <- (if %s then %s else Ok false);", v, a, right))
+		} else {
+			*pre = append(*pre, fmt.Sprintf("do %s <- (if %s then Ok true else %s);", v, a, right))
+		}
+		return v, gaK("bool")
+	}
+	a, ta := t.expr(x.X, c, pre)
+	b, tb := t.expr(x.Y, c, pre)
+	if ta.k == "bad" || tb.k == "bad" {
+		return "0", gaBad
+	}
+	isNum := func(k string) bool { return k == "int" }
+	switch x.Op {
+	case token.ADD, token.SUB:
+		if isNum(ta.k) && isNum(tb.k) {
+			op := "+"
+			if x.Op == token.SUB {
+				op = "-"
+			}
+			if gaWrapInts[t.f.spec.pkg+":"+t.f.spec.fn] {
+				return fmt.Sprintf("(wrap64 (%s %s %s))", a, op, b), gaK("int")
+			}
+			return fmt.Sprintf("(%s %s %s)", a, op, b), gaK("int")
+		}
+	case token.LSS, token.LEQ, token.GTR, token.GEQ:
+		if isNum(ta.k) && isNum(tb.k) {
+			switch x.Op {
+			case token.LSS:
+				return fmt.Sprintf("(%s <? %s)", a, b), gaK("bool")
+			case token.LEQ:
+				return fmt.Sprintf("(%s <=? %s)", a, b), gaK("bool")
+			case token.GTR:
+				return fmt.Sprintf("(%s <? %s)", b, a), gaK("bool")
+			default:
+				return fmt.Sprintf("(%s <=? %s)", b, a), gaK("bool")
+			}
+		}
+	case token.EQL, token.NEQ:
+		text := ""
+		_, litB := x.Y.(*ast.BasicLit)
+		switch {
+		case tb.k == "nil" && (ta.k == "err" || ta.k == "col"):
+			text = "(ga_isnil " + a + ")"
+		case ta.k == "nil" && (tb.k == "err" || tb.k == "col"):
+			text = "(ga_isnil " + b + ")"
+		case isNum(ta.k) && isNum(tb.k):
+			text = fmt.Sprintf("(%s =? %s)", a, b)
+		case ta.k == "bool" && tb.k == "bool":
+			text = fmt.Sprintf("(Bool.eqb %s %s)", a, b)
+		case ta.k == "string" && tb.k == "string":
+			text = fmt.Sprintf("(bytes_eqb %s %s)", a, b)
+		case ta.k == "fn" && tb.k == "string" && litB:
+			text = fmt.Sprintf("(fn_eq_string %s %s)", a, b)
+		}
+		if text != "" {
+			if x.Op == token.NEQ {
+				text = "(negb " + text + ")"
+			}
+			return text, gaK("bool")
+		}
+	}
+	t.fail(x, "operator outside the scheme (types %s, %s): %s", ta, tb, t.src(x))
+	return "0", gaBad
+}
+
+// ------------------------------------------------------------------ calls
+
+func (t *gaTr) callTranslated(g *gaFunc, n *ast.CallExpr, recv string, c gaCtx, pre *[]string) (string, *gaT) {
+	if !g.done || g.fd == nil {
+		t.fail(n, "call of %s, which is not translated before this function", g.spec.fn)
+		return "0", gaBad
+	}
+	if len(n.Args) != len(g.params) {
+		t.fail(n, "call of %s with %d arguments (it has %d parameters)", g.spec.fn, len(n.Args), len(g.params))
+		return "0", gaBad
+	}
+	variadic := false
+	if k := len(g.fd.Type.Params.List); k > 0 {
+		_, variadic = g.fd.Type.Params.List[k-1].Type.(*ast.Ellipsis)
+	}
+	if variadic != n.Ellipsis.IsValid() {
+		t.fail(n, "a variadic parameter must be passed as s...")
+	}
+	parts := []string{g.coq}
+	if recv != "" {
+		parts = append(parts, recv)
+	}
+	var bufs []string
+	for i, a := range n.Args {
+		if g.params[i].ty.k == "buf" { // &x: value-result
+			ue, ok := a.(*ast.UnaryExpr)
+			var v gaVar
+			if ok && ue.Op == token.AND {
+				if id, isId := ue.X.(*ast.Ident); isId {
+					v, ok = c.lookup(id.Name)
+				} else {
+					ok = false
+				}
+			}
+			if !ok || v.ty.k != "buf" {
+				t.fail(a, "a *[]int argument must be &x for a local []int x")
+				continue
+			}
+			parts = append(parts, v.coq)
+			bufs = append(bufs, v.coq)
+			continue
+		}
+		x, ty := t.expr(a, c, pre)
+		parts = append(parts, t.coerce(a, x, ty, g.params[i].ty))
+	}
+	if len(bufs) > 0 {
+		tv, _ := t.bind(pre, strings.Join(parts, " "), g.res)
+		r := t.tmp()
+		*pre = append(*pre, fmt.Sprintf("let %s := %s in", gaPattern(append([]string{r}, bufs...)), tv))
+		return r, g.res
+	}
+	return t.bind(pre, strings.Join(parts, " "), g.res)
+}
+
+func (t *gaTr) argsOf(x *ast.CallExpr, c gaCtx, pre *[]string, want ...*gaT) ([]string, bool) {
+	if len(x.Args) != len(want) || x.Ellipsis.IsValid() {
+		t.fail(x, "call with the wrong number of arguments: %s", t.src(x))
+		return nil, false
+	}
+	var out []string
+	for i, a := range x.Args {
+		y, ty := t.expr(a, c, pre)
+		out = append(out, t.coerce(a, y, ty, want[i]))
+	}
+	return out, true
+}
+
+func (t *gaTr) call(x *ast.CallExpr, c gaCtx, pre *[]string) (string, *gaT) {
+	fun := t.src(x.Fun)
+	if id, ok := x.Fun.(*ast.Ident); ok {
+		if v, isVar := c.lookup(id.Name); isVar {
+			if v.ty.k == "func" { // a func([]int) int value
+				if a, ok := t.argsOf(x, c, pre, gaSlice(gaK("int"))); ok {
+					return t.bind(pre, v.coq+" "+a[0], gaK("int"))
+				}
+				return "0", gaBad
+			}
+			t.fail(x, "call of a variable: %s", fun)
+			return "0", gaBad
+		}
+	}
+	ids := gaSlice(gaK("u32"))
+	switch fun {
+	case "len":
+		if len(x.Args) == 1 {
+			s, ty := t.expr(x.Args[0], c, pre)
+			if ty.k == "slice" || ty.k == "string" {
+				return "(Z.of_nat (length " + s + "))", gaK("int")
+			}
+		}
+		t.fail(x, "len outside the scheme: %s", t.src(x))
+		return "0", gaBad
+	case "cap":
+		if len(x.Args) == 1 {
+			if se, ok := x.Args[0].(*ast.StarExpr); ok {
+				s, ty := t.expr(se.X, c, pre)
+				if ty.k == "buf" {
+					return "(snd " + s + ")", gaK("int")
+				}
+			}
+		}
+		t.fail(x, "cap outside the scheme: %s", t.src(x))
+		return "0", gaBad
+	case "append":
+		if len(x.Args) == 2 && !x.Ellipsis.IsValid() {
+			s, ty := t.expr(x.Args[0], c, pre)
+			v, tv := t.expr(x.Args[1], c, pre)
+			if ty.k == "slice" {
+				v = t.coerce(x.Args[1], v, tv, ty.el)
+				return "(" + s + " ++ [" + v + "])", ty
+			}
+		}
+		t.fail(x, "append outside the scheme: %s", t.src(x))
+		return "[]", gaBad
+	case "make":
+		if len(x.Args) == 2 || len(x.Args) == 3 {
+			ty := t.resolve(x.Args[0])
+			n, tn := t.expr(x.Args[1], c, pre)
+			t.coerce(x.Args[1], n, tn, gaK("int"))
+			if ty.k == "map" && len(x.Args) == 2 {
+				return "[]", ty
+			}
+			if ty.k != "slice" {
+				t.fail(x, "make of something that is not a slice or a map: %s", t.src(x))
+				return "[]", gaBad
+			}
+			if len(x.Args) == 2 && n == "0" {
+				return "[]", ty
+			}
+			if n == "0" {
+				cp, tc := t.expr(x.Args[2], c, pre)
+				t.coerce(x.Args[2], cp, tc, gaK("int"))
+				return t.bind(pre, "ga_make0 "+cp, ty)
+			}
+			cp := n
+			if len(x.Args) == 3 {
+				var tc *gaT
+				cp, tc = t.expr(x.Args[2], c, pre)
+				t.coerce(x.Args[2], cp, tc, gaK("int"))
+			}
+			z, ok := ty.el.zero()
+			if !ok {
+				t.fail(x, "make of a slice whose element has no zero in the scheme: %s", t.src(x))
+			}
+			return t.bind(pre, fmt.Sprintf("ga_make %s %s %s", z, n, cp), ty)
+		}
+	case "uint32":
+		if a, ok := t.argsOf(x, c, pre, gaK("int")); ok {
+			return "(ga_u32 " + a[0] + ")", gaK("u32")
+		}
+		return "0", gaBad
+	case "GroupStats":
+		if t.f.spec.pkg == gaRoot {
+			if a, ok := t.argsOf(x, c, pre, gaK("stats")); ok {
+				return a[0], gaK("stats")
+			}
+			return "s0", gaBad
+		}
+	case "unknownCol":
+		if t.f.spec.pkg == gaRoot {
+			if a, ok := t.argsOf(x, c, pre, gaK("string")); ok {
+				return "(unknownCol " + a[0] + ")", gaK("string")
+			}
+			return "[]", gaBad
+		}
+	case "index.NewAscending":
+		if a, ok := t.argsOf(x, c, pre, gaK("u32")); ok {
+			return t.bind(pre, "gc_NewAscending "+a[0], ids)
+		}
+		return "[]", gaBad
+	case "icolumn.New":
+		if a, ok := t.argsOf(x, c, pre, gaSlice(gaK("int"))); ok {
+			return "(Some (icolumn_New " + a[0] + "))", gaK("col")
+		}
+		return "None", gaBad
+	case "integer.Max", "integer.Min":
+		if a, ok := t.argsOf(x, c, pre, gaK("int"), gaK("int")); ok {
+			return fmt.Sprintf("(gf_integer_%s %s %s)", fun[len("integer."):], a[0], a[1]), gaK("int")
+		}
+		return "0", gaBad
+	case "grouper.GroupBy":
+		if a, ok := t.argsOf(x, c, pre, ids, gaSlice(gaK("cmp"))); ok {
+			return t.bind(pre, fmt.Sprintf("grouper_GroupBy %s %s", a[0], a[1]), gaTupleT(gaSlice(ids), gaK("stats")))
+		}
+		return "0", gaBad
+	case "grouper.Distinct":
+		if a, ok := t.argsOf(x, c, pre, ids, gaSlice(gaK("cmp"))); ok {
+			return t.bind(pre, fmt.Sprintf("grouper_Distinct %s %s", a[0], a[1]), ids)
+		}
+		return "0", gaBad
+	case "qerrors.New":
+		if len(x.Args) >= 2 && !x.Ellipsis.IsValid() {
+			var parts []string
+			for i, a := range x.Args {
+				y, ty := t.expr(a, c, pre)
+				if i >= 2 && ty.k == "fn" {
+					parts = append(parts, "(fn_text "+y+")")
+					continue
+				}
+				parts = append(parts, t.coerce(a, y, ty, gaK("string")))
+			}
+			return fmt.Sprintf("(Some (new_error %s %s [%s]))", parts[0], parts[1], strings.Join(parts[2:], "; ")), gaK("err")
+		}
+	case "qerrors.Propagate":
+		if a, ok := t.argsOf(x, c, pre, gaK("string"), gaK("err")); ok {
+			return fmt.Sprintf("(Some (propagate %s %s))", a[0], a[1]), gaK("err")
+		}
+		return "None", gaBad
+	case "groupby.NewConfig":
+		if g := gaFuncs[gaGroupbyPkg+":NewConfig"]; g != nil && t.f.spec.pkg == gaRoot {
+			return t.callTranslated(g, x, "", c, pre)
+		}
+	}
+	// a translated free function of the package
+	if id, ok := x.Fun.(*ast.Ident); ok {
+		if g := gaFuncs[t.f.spec.pkg+":"+id.Name]; g != nil && g.recv == nil {
+			return t.callTranslated(g, x, "", c, pre)
+		}
+		t.fail(x, "call of a function outside the scheme: %s", fun)
+		return "0", gaBad
+	}
+	sel, ok := x.Fun.(*ast.SelectorExpr)
+	if !ok {
+		t.fail(x, "call outside the scheme: %s", t.src(x))
+		return "0", gaBad
+	}
+	m := sel.Sel.Name
+	if id, ok := sel.X.(*ast.Ident); ok {
+		if _, isVar := c.lookup(id.Name); !isVar {
+			t.fail(x, "call of a function outside the scheme: %s", fun)
+			return "0", gaBad
+		}
+	}
+	r, tr := t.expr(sel.X, c, pre)
+	if tr.k == "rec" {
+		goName := tr.rec
+		if gaRecs[tr.rec].pkg == gaIcolumnPkg {
+			goName = strings.TrimPrefix(tr.rec, "icolumn_")
+		}
+		if g := gaFuncs[gaRecs[tr.rec].pkg+":"+goName+"."+m]; g != nil {
+			return t.callTranslated(g, x, r, c, pre)
+		}
+		if tr.rec == "icolumn_Column" && m == "fnName" {
+			if a, ok := t.argsOf(x, c, pre, gaK("string")); ok {
+				return "(icolumn_fnName " + a[0] + ")", gaK("string")
+			}
+			return "[]", gaBad
+		}
+		// a method of an embedded interface field
+		for _, f := range gaRecs[tr.rec].fields {
+			if f.ty.k == "col" && f.name == "Column" && (m == "Subset" || m == "Aggregate" || m == "Comparable") {
+				r, tr = fmt.Sprintf("(ga_%s_%s %s)", tr.rec, f.name, r), f.ty
+			}
+		}
+	}
+	switch tr.k {
+	case "col":
+		switch m {
+		case "Subset":
+			if a, ok := t.argsOf(x, c, pre, ids); ok {
+				cv, _ := t.bind(pre, "ga_deref "+r, nil)
+				return t.bind(pre, fmt.Sprintf("col_Subset %s %s", cv, a[0]), gaK("col"))
+			}
+			return "None", gaBad
+		case "Aggregate":
+			if a, ok := t.argsOf(x, c, pre, gaSlice(ids), gaK("fn")); ok {
+				cv, _ := t.bind(pre, "ga_deref "+r, nil)
+				return t.bind(pre, fmt.Sprintf("col_Aggregate %s %s %s", cv, a[0], a[1]), gaTupleT(gaK("col"), gaK("err")))
+			}
+			return "None", gaBad
+		case "Comparable":
+			if a, ok := t.argsOf(x, c, pre, gaK("bool"), gaK("bool"), gaK("bool")); ok {
+				cv, _ := t.bind(pre, "ga_deref "+r, nil)
+				return fmt.Sprintf("(col_Comparable %s %s %s %s)", cv, a[0], a[1], a[2]), gaK("cmp")
+			}
+			return "None", gaBad
+		}
+	case "slice":
+		if m == "Len" && len(x.Args) == 0 && tr.el.k == "u32" {
+			return "(Z.of_nat (length " + r + "))", gaK("int")
+		}
+	}
+	t.fail(x, "call outside the scheme: %s", t.src(x))
+	return "0", gaBad
+}
+
+// ------------------------------------------------------------------ statements
+
+func gaContainsReturn(n ast.Node) bool {
+	found := false
+	ast.Inspect(n, func(m ast.Node) bool {
+		if _, ok := m.(*ast.ReturnStmt); ok {
+			found = true
+		}
+		return !found
+	})
+	return found
+}
+
+func gaRootIdent(e ast.Expr) string {
+	switch x := e.(type) {
+	case *ast.Ident:
+		return x.Name
+	case *ast.SelectorExpr:
+		return gaRootIdent(x.X)
+	case *ast.IndexExpr:
+		return gaRootIdent(x.X)
+	case *ast.ParenExpr:
+		return gaRootIdent(x.X)
+	case *ast.StarExpr:
+		return gaRootIdent(x.X)
+	}
+	return ""
+}
+
+// gaAssignedNames collects the names stored into and the names declared inside the nodes
+func gaAssignedNames(nodes ...ast.Node) (assigned, declared map[string]bool) {
+	assigned, declared = map[string]bool{}, map[string]bool{}
+	for _, n := range nodes {
+		ast.Inspect(n, func(m ast.Node) bool {
+			switch s := m.(type) {
+			case *ast.AssignStmt:
+				for _, l := range s.Lhs {
+					if s.Tok == token.DEFINE {
+						declared[gaRootIdent(l)] = true
+					} else {
+						assigned[gaRootIdent(l)] = true
+					}
+				}
+			case *ast.IncDecStmt:
+				assigned[gaRootIdent(s.X)] = true
+			case *ast.RangeStmt:
+				if s.Key != nil {
+					declared[gaRootIdent(s.Key)] = true
+				}
+				if s.Value != nil {
+					declared[gaRootIdent(s.Value)] = true
+				}
+			case *ast.ValueSpec:
+				for _, id := range s.Names {
+					declared[id.Name] = true
+				}
+			case *ast.TypeSwitchStmt:
+				if as, ok := s.Assign.(*ast.AssignStmt); ok {
+					declared[gaRootIdent(as.Lhs[0])] = true
+				}
+			case *ast.UnaryExpr:
+				if s.Op == token.AND { // &x handed to a callee that may store through it
+					assigned[gaRootIdent(s.X)] = true
+				}
+			case *ast.CallExpr:
+				// a pointer variable handed on: the callee may store through it
+				for _, a := range s.Args {
+					if id, ok := a.(*ast.Ident); ok {
+						assigned["*"+id.Name] = true
+					}
+				}
+			}
+			return true
+		})
+	}
+	delete(declared, "_")
+	delete(assigned, "_")
+	return
+}
+
+// assigned: the variables of c stored into inside the nodes, in context order
+func (t *gaTr) assigned(c gaCtx, nodes ...ast.Node) []gaVar {
+	as, decl := gaAssignedNames(nodes...)
+	var out []gaVar
+	seen := map[string]bool{}
+	for i := len(c.vars) - 1; i >= 0; i-- {
+		v := c.vars[i]
+		if seen[v.name] {
+			continue
+		}
+		seen[v.name] = true
+		if as[v.name] || v.ty.k == "buf" && as["*"+v.name] {
+			if decl[v.name] {
+				t.fail(nodes[0], "the variable %s is stored into in a block that also declares a variable of that name", v.name)
+			}
+			out = append([]gaVar{v}, out...)
+		}
+	}
+	return out
+}
+
+func gaCoqNames(vs []gaVar) []string {
+	var out []string
+	for _, v := range vs {
+		out = append(out, v.coq)
+	}
+	return out
+}
+
+func gaCoqTypes(vs []gaVar) []string {
+	var out []string
+	for _, v := range vs {
+		out = append(out, v.ty.coq())
+	}
+	return out
+}
+
+func (t *gaTr) declare(n ast.Node, c *gaCtx, name string, ty *gaT) string {
+	if name == "_" {
+		return "_"
+	}
+	if v, ok := c.lookup(name); ok && !v.ty.same(ty) {
+		t.fail(n, "the variable %s is declared again with another type", name)
+	}
+	c.vars = append(c.vars, gaVar{name, "v_" + name, ty})
+	return "v_" + name
+}
+
+// store translates  lhs = (the Coq term val of type ty)  into lines
+func (t *gaTr) store(st ast.Stmt, lhs ast.Expr, val string, ty *gaT, define bool, c *gaCtx, out *[]string) {
+	switch l := lhs.(type) {
+	case *ast.Ident:
+		if l.Name == "_" {
+			return
+		}
+		if define {
+			if ty.k == "nil" || ty.k == "bad" && !t.bad {
+				t.fail(st, "a declaration needs a typed value")
+			}
+			name := t.declare(l, c, l.Name, ty)
+			*out = append(*out, fmt.Sprintf("let %s := %s in", name, val))
+			return
+		}
+		v, ok := c.lookup(l.Name)
+		if !ok {
+			t.fail(st, "store into something that is not a variable: %s", l.Name)
+			return
+		}
+		val = t.coerce(lhs, val, ty, v.ty)
+		*out = append(*out, fmt.Sprintf("let %s := %s in", v.coq, val))
+		return
+	case *ast.SelectorExpr:
+		if id, ok := l.X.(*ast.Ident); ok && !define {
+			if v, ok := c.lookup(id.Name); ok && v.ty.k == "rec" {
+				if f, ok := gaRecs[v.ty.rec].field(l.Sel.Name); ok {
+					val = t.coerce(lhs, val, ty, f.ty)
+					*out = append(*out, fmt.Sprintf("let %s := ga_%s_set_%s %s %s in", v.coq, v.ty.rec, f.name, v.coq, val))
+					return
+				}
+			}
+		}
+	case *ast.IndexExpr:
+		if id, ok := l.X.(*ast.Ident); ok && !define {
+			if v, ok := c.lookup(id.Name); ok {
+				i, ti := t.expr(l.Index, *c, out)
+				switch v.ty.k {
+				case "slice":
+					t.coerce(l.Index, i, ti, gaK("int"))
+					val = t.coerce(lhs, val, ty, v.ty.el)
+					*out = append(*out, fmt.Sprintf("do %s <- ga_update %s %s %s;", v.coq, v.coq, i, val))
+					return
+				case "map":
+					t.coerce(l.Index, i, ti, gaK("string"))
+					val = t.coerce(lhs, val, ty, v.ty.el)
+					*out = append(*out, fmt.Sprintf("let %s := ga_map_set %s %s %s in", v.coq, v.coq, i, val))
+					return
+				}
+			}
+		}
+	case *ast.StarExpr:
+		if id, ok := l.X.(*ast.Ident); ok && !define {
+			if v, ok := c.lookup(id.Name); ok && v.ty.k == "buf" {
+				t.fail(st, "a store through a buffer pointer must be  *p = make([]int, 0, n)")
+				return
+			}
+		}
+	}
+	t.fail(st, "store outside the scheme: %s", t.src(lhs))
+}
+
+// simple translates a statement without control flow into lines that end in "in" or ";"
+func (t *gaTr) simple(st ast.Stmt, c *gaCtx) ([]string, bool) {
+	var out []string
+	switch s := st.(type) {
+	case *ast.AssignStmt:
+		define := s.Tok == token.DEFINE
+		if s.Tok == token.ADD_ASSIGN && len(s.Lhs) == 1 && len(s.Rhs) == 1 {
+			be := &ast.BinaryExpr{X: s.Lhs[0], Op: token.ADD, Y: s.Rhs[0], OpPos: s.TokPos}
+			x, ty := t.expr(be, *c, &out)
+			t.store(st, s.Lhs[0], x, ty, false, c, &out)
+			return out, true
+		}
+		if !define && s.Tok != token.ASSIGN {
+			return nil, false
+		}
+		// *buf = make([]int, 0, n): a fresh buffer of capacity n
+		if se, ok := s.Lhs[0].(*ast.StarExpr); ok && len(s.Lhs) == 1 && !define {
+			if id, ok := se.X.(*ast.Ident); ok {
+				if v, ok := c.lookup(id.Name); ok && v.ty.k == "buf" {
+					if ce, ok := s.Rhs[0].(*ast.CallExpr); ok && t.src(ce.Fun) == "make" && len(ce.Args) == 3 && t.src(ce.Args[0]) == "[]int" && t.src(ce.Args[1]) == "0" {
+						n, tn := t.expr(ce.Args[2], *c, &out)
+						t.coerce(ce.Args[2], n, tn, gaK("int"))
+						tv := t.tmp()
+						out = append(out, fmt.Sprintf("do %s <- @ga_make0 Z %s;", tv, n))
+						out = append(out, fmt.Sprintf("let %s := (%s, %s) in", v.coq, tv, n))
+						return out, true
+					}
+				}
+			}
+		}
+		if len(s.Lhs) == len(s.Rhs) {
+			var texts []string
+			var tys []*gaT
+			for _, r := range s.Rhs {
+				x, ty := t.expr(r, *c, &out)
+				texts = append(texts, x)
+				tys = append(tys, ty)
+			}
+			if len(s.Lhs) > 1 { // parallel: the right sides are evaluated first
+				for i := range texts {
+					if tys[i].k == "nil" || tys[i].k == "bad" {
+						continue
+					}
+					v := t.tmp()
+					out = append(out, fmt.Sprintf("let %s := %s in", v, texts[i]))
+					texts[i] = v
+				}
+			}
+			for i, l := range s.Lhs {
+				t.store(st, l, texts[i], tys[i], define, c, &out)
+			}
+			return out, true
+		}
+		if len(s.Rhs) != 1 {
+			return nil, false
+		}
+		// v, ok := m[k]
+		if ie, ok := s.Rhs[0].(*ast.IndexExpr); ok && len(s.Lhs) == 2 {
+			m, tm := t.expr(ie.X, *c, &out)
+			k, tk := t.expr(ie.Index, *c, &out)
+			if tm.k != "map" {
+				t.fail(st, "v, ok := x[k] on something that is not a map")
+				return out, true
+			}
+			t.coerce(ie.Index, k, tk, gaK("string"))
+			z, zok := tm.el.zero()
+			if !zok {
+				t.fail(st, "map lookup of a value type without zero in the scheme")
+			}
+			a, b := t.tmp(), t.tmp()
+			out = append(out, fmt.Sprintf("let '(%s, %s) := ga_map_get %s %s %s in", a, b, z, m, k))
+			t.store(st, s.Lhs[0], a, tm.el, define, c, &out)
+			t.store(st, s.Lhs[1], b, gaK("bool"), define, c, &out)
+			return out, true
+		}
+		// a, b := f(..)
+		x, ty := t.expr(s.Rhs[0], *c, &out)
+		if ty.k != "tuple" || len(ty.parts) != len(s.Lhs) {
+			if ty.k != "bad" {
+				t.fail(st, "assignment of %s to %d variables", ty, len(s.Lhs))
+			}
+			return out, true
+		}
+		var names []string
+		for range s.Lhs {
+			names = append(names, t.tmp())
+		}
+		out = append(out, fmt.Sprintf("let %s := %s in", gaPattern(names), x))
+		for i, l := range s.Lhs {
+			t.store(st, l, names[i], ty.parts[i], define, c, &out)
+		}
+		return out, true
+	case *ast.DeclStmt:
+		gd, ok := s.Decl.(*ast.GenDecl)
+		if !ok || gd.Tok != token.VAR {
+			return nil, false
+		}
+		for _, sp := range gd.Specs {
+			vs := sp.(*ast.ValueSpec)
+			if vs.Type == nil || len(vs.Values) != 0 {
+				return nil, false
+			}
+			ty := t.resolve(vs.Type)
+			for _, id := range vs.Names {
+				if t.addrOf[id.Name] && !ty.same(gaRecT("Config")) {
+					if t.src(vs.Type) != "[]int" || len(vs.Names) != 1 {
+						t.fail(st, "the address of a variable that is not a []int or a Config is taken")
+					}
+					ty = gaK("buf")
+				}
+			}
+			z, ok := ty.zero()
+			if !ok {
+				t.fail(st, "var of a type without zero in the scheme")
+			}
+			for _, id := range vs.Names {
+				name := t.declare(id, c, id.Name, ty)
+				out = append(out, fmt.Sprintf("let %s := %s in", name, z))
+			}
+		}
+		return out, true
+	case *ast.IncDecStmt:
+		id, ok := s.X.(*ast.Ident)
+		if !ok {
+			return nil, false
+		}
+		v, ok := c.lookup(id.Name)
+		if !ok || v.ty.k != "int" {
+			return nil, false
+		}
+		op := "+"
+		if s.Tok == token.DEC {
+			op = "-"
+		}
+		out = append(out, fmt.Sprintf("let %s := (%s %s 1) in", v.coq, v.coq, op))
+		return out, true
+	case *ast.ExprStmt:
+		// f(&config) with f a ConfigFunc
+		ce, ok := s.X.(*ast.CallExpr)
+		if !ok || len(ce.Args) != 1 {
+			return nil, false
+		}
+		fid, ok := ce.Fun.(*ast.Ident)
+		if !ok {
+			return nil, false
+		}
+		fv, ok := c.lookup(fid.Name)
+		if !ok || fv.ty.k != "cf" {
+			return nil, false
+		}
+		ue, ok := ce.Args[0].(*ast.UnaryExpr)
+		if !ok || ue.Op != token.AND {
+			return nil, false
+		}
+		aid, ok := ue.X.(*ast.Ident)
+		if !ok {
+			return nil, false
+		}
+		av, ok := c.lookup(aid.Name)
+		if !ok || !av.ty.same(gaRecT("Config")) {
+			return nil, false
+		}
+		out = append(out, fmt.Sprintf("do %s <- cf_apply %s %s;", av.coq, fv.coq, av.coq))
+		return out, true
+	}
+	return nil, false
+}
+
+func gaJoin(lines []string, last string) string {
+	return strings.Join(append(append([]string{}, lines...), last), "\n")
+}
+
+func (t *gaTr) stmts(list []ast.Stmt, c gaCtx, k func(gaCtx) string) string {
+	if len(list) == 0 {
+		return k(c)
+	}
+	st, rest := list[0], list[1:]
+	cont := func(c2 gaCtx) string { return t.stmts(rest, c2, k) }
+	if lines, ok := t.simple(st, &c); ok {
+		return gaJoin(lines, cont(c))
+	}
+	switch x := st.(type) {
+	case *ast.ReturnStmt:
+		if len(rest) != 0 {
+			t.fail(st, "statements after return")
+		}
+		want := []*gaT{t.f.res}
+		if t.f.res.k == "tuple" {
+			want = t.f.res.parts
+		}
+		if len(x.Results) != len(want) {
+			t.fail(st, "return with %d values", len(x.Results))
+			return "Panic"
+		}
+		var pre []string
+		var vals []string
+		for i, r := range x.Results {
+			y, ty := t.expr(r, c, &pre)
+			vals = append(vals, t.retCoerce(r, y, ty, want[i]))
+		}
+		vals = append(vals, t.retExtra(c)...)
+		return gaJoin(pre, "Ok "+gaTuple(vals))
+	case *ast.IfStmt:
+		return t.ifStmt(x, c, cont)
+	case *ast.RangeStmt:
+		return t.rangeStmt(x, c, cont)
+	case *ast.ForStmt:
+		return t.forStmt(x, c, cont)
+	case *ast.TypeSwitchStmt:
+		return t.typeSwitch(x, c, cont)
+	case *ast.BlockStmt:
+		return t.stmts(x.List, c, func(c2 gaCtx) string { return cont(c) })
+	}
+	t.fail(st, "statement outside the scheme: %s", strings.SplitN(t.src(st), "\n", 2)[0])
+	return "Panic"
+}
+
+// retCoerce: a concrete icolumn.Column returned as a column.Column
+func (t *gaTr) retCoerce(n ast.Node, text string, have, want *gaT) string {
+	if have.k == "rec" && have.rec == "icolumn_Column" && want.k == "col" {
+		return fmt.Sprintf("(Some (icolumn_Column (ga_icolumn_Column_data %s)))", text)
+	}
+	if have.k == "rec" && have.rec == "icolumn_Comparable" && want.k == "cmp" {
+		return fmt.Sprintf("(icolumn_Comparable %s)", text)
+	}
+	return t.coerce(n, text, have, want)
+}
+
+// retExtra: the final pointees of the *[]int parameters (value-result)
+func (t *gaTr) retExtra(c gaCtx) []string {
+	var out []string
+	for _, p := range t.f.params {
+		if p.ty.k == "buf" {
+			out = append(out, p.coq)
+		}
+	}
+	return out
+}
+
+func gaElse(x *ast.IfStmt) ([]ast.Stmt, bool) {
+	switch e := x.Else.(type) {
+	case nil:
+		return nil, true
+	case *ast.BlockStmt:
+		return e.List, true
+	case *ast.IfStmt:
+		return []ast.Stmt{e}, true
+	}
+	return nil, false
+}
+
+func (t *gaTr) ifStmt(x *ast.IfStmt, c gaCtx, cont func(gaCtx) string) string {
+	els, ok := gaElse(x)
+	if !ok {
+		t.fail(x, "else outside the scheme")
+		return "Panic"
+	}
+	outer := c
+	var pre []string
+	if x.Init != nil {
+		lines, ok := t.simple(x.Init, &c)
+		if !ok {
+			t.fail(x, "if with an init statement outside the scheme")
+			return "Panic"
+		}
+		as, ok := x.Init.(*ast.AssignStmt)
+		if !ok || as.Tok != token.DEFINE {
+			t.fail(x, "if with an init statement that is not a declaration")
+			return "Panic"
+		}
+		for _, l := range as.Lhs {
+			if id, ok := l.(*ast.Ident); ok && id.Name != "_" {
+				if _, shadows := outer.lookup(id.Name); shadows {
+					t.fail(x, "the init statement of an if shadows the variable %s", id.Name)
+				}
+			}
+		}
+		pre = append(pre, lines...)
+	}
+	cond, ty := t.expr(x.Cond, c, &pre)
+	t.coerce(x.Cond, cond, ty, gaK("bool"))
+	head := fmt.Sprintf("if %s then", cond)
+	if gaContainsReturn(x) {
+		back := func(c2 gaCtx) string { return cont(outer) }
+		a := t.stmts(x.Body.List, c, back)
+		b := t.stmts(els, c, back)
+		return gaJoin(pre, fmt.Sprintf("%s\n%s\nelse\n%s", head, gaIndent(a), gaIndent(b)))
+	}
+	nodes := []ast.Node{x.Body}
+	if x.Else != nil {
+		nodes = append(nodes, x.Else)
+	}
+	res := t.assigned(outer, nodes...)
+	if len(res) == 0 {
+		t.fail(x, "an if without return that stores into no outer variable")
+	}
+	inner := c
+	inner.top = false
+	exit := func(c2 gaCtx) string { return "Ok " + gaTuple(gaCoqNames(res)) }
+	a := t.stmts(x.Body.List, inner, exit)
+	b := t.stmts(els, inner, exit)
+	line := fmt.Sprintf("do %s <- (\n%s\n%s\n%s\n%s);", gaTuple(gaCoqNames(res)), gaIndent(head), gaIndent(gaIndent(a)), gaIndent("else"), gaIndent(gaIndent(b)))
+	return gaJoin(pre, line+"\n"+cont(outer))
+}
+
+// the loop over the list xs of element type el; keyName / valName are the Coq names of the position and of the
+// element ("" / "_" when unused)
+func (t *gaTr) loop(x ast.Stmt, body *ast.BlockStmt, c, bodyCtx gaCtx, xs string, el *gaT, keyName, valName string, pre []string, cont func(gaCtx) string) string {
+	hasRet := gaContainsReturn(body)
+	res := t.assigned(c, body)
+	if hasRet && !c.top {
+		t.fail(x, "a loop with a return inside that is not at the top level of the function")
+	}
+	const hole = "@LOOPARGS@"
+	bodyText := t.stmts(body.List, bodyCtx, func(c2 gaCtx) string {
+		call := "loop l'"
+		if keyName != "" {
+			call += " (" + keyName + " + 1)"
+		}
+		return call + hole
+	})
+	var exit, rty string
+	if hasRet {
+		exit = cont(c)
+		rty = t.resType()
+	} else {
+		exit = "Ok " + gaTuple(gaCoqNames(res))
+		rty = gaTypeTuple(gaCoqTypes(res))
+	}
+	var params []gaVar
+	isRes := map[string]bool{}
+	for _, v := range res {
+		isRes[v.coq] = true
+	}
+	seen := map[string]bool{}
+	var flat []gaVar
+	for i := len(c.vars) - 1; i >= 0; i-- {
+		if !seen[c.vars[i].name] {
+			seen[c.vars[i].name] = true
+			flat = append([]gaVar{c.vars[i]}, flat...)
+		}
+	}
+	for _, v := range flat {
+		if isRes[v.coq] || gaMentions(bodyText, v.coq) || gaMentions(exit, v.coq) {
+			params = append(params, v)
+		}
+	}
+	args, sig, tys := "", "", ""
+	for _, v := range params {
+		args += " " + v.coq
+		sig += fmt.Sprintf(" (%s : %s)", v.coq, v.ty.coq())
+		tys += v.ty.coq() + " -> "
+	}
+	bodyText = strings.ReplaceAll(bodyText, hole, args)
+	t.nloops++
+	name := fmt.Sprintf("%s_loop%d", t.f.coq, t.nloops)
+	keySig, keyTy, keyArg := "", "", ""
+	if keyName != "" {
+		keySig, keyTy, keyArg = " ("+keyName+" : Z)", "Z -> ", " 0"
+	}
+	var b strings.Builder
+	fmt.Fprintf(&b, "Definition %s : list %s -> %s%soutcome %s :=\n", name, el.coq(), keyTy, tys, rty)
+	fmt.Fprintf(&b, "  fix loop (l : list %s)%s%s {struct l} : outcome %s :=\n", el.coq(), keySig, sig, rty)
+	fmt.Fprintf(&b, "  match l with\n  | [] =>\n%s\n  | %s :: l' =>\n%s\n  end.\n", gaIndent(gaIndent(exit)), valName, gaIndent(gaIndent(bodyText)))
+	t.loops = append(t.loops, b.String())
+	call := name + " " + xs + keyArg + args
+	if hasRet {
+		return gaJoin(pre, call)
+	}
+	return gaJoin(pre, fmt.Sprintf("do %s <- %s;\n%s", gaTuple(gaCoqNames(res)), call, cont(c)))
+}
+
+func (t *gaTr) resType() string {
+	parts := []string{t.f.res.coq()}
+	if t.f.res.k == "tuple" {
+		parts = nil
+		for _, p := range t.f.res.parts {
+			parts = append(parts, p.coq())
+		}
+	}
+	for _, p := range t.f.params {
+		if p.ty.k == "buf" {
+			parts = append(parts, p.ty.coq())
+		}
+	}
+	return gaTypeTuple(parts)
+}
+
+func (t *gaTr) rangeStmt(x *ast.RangeStmt, c gaCtx, cont func(gaCtx) string) string {
+	if x.Tok != token.DEFINE {
+		t.fail(x, "range without :=")
+		return "Panic"
+	}
+	var pre []string
+	xs, tx := t.expr(x.X, c, &pre)
+	if tx.k != "slice" {
+		t.fail(x, "range over something that is not a slice: %s", t.src(x.X))
+		return "Panic"
+	}
+	body := c
+	body.top = false
+	keyName, valName := "", "_"
+	check := func(n ast.Expr) string {
+		id, ok := n.(*ast.Ident)
+		if !ok {
+			t.fail(x, "range variable that is not an identifier")
+			return "_"
+		}
+		if _, ok := c.lookup(id.Name); ok && id.Name != "_" {
+			t.fail(x, "the range variable %s shadows a variable", id.Name)
+		}
+		return id.Name
+	}
+	if x.Key != nil {
+		if n := check(x.Key); n != "_" {
+			keyName = t.declare(x, &body, n, gaK("int"))
+		}
+	}
+	if x.Value != nil {
+		if n := check(x.Value); n != "_" {
+			valName = t.declare(x, &body, n, tx.el)
+			as, _ := gaAssignedNames(x.Body)
+			if r := gaRootIdent(x.X); r != "" && as[r] {
+				t.fail(x, "the body stores into the slice it ranges over by value")
+			}
+		}
+	}
+	return t.loop(x, x.Body, c, body, xs, tx.el, keyName, valName, pre, cont)
+}
+
+// for i := 0; i < e; i++ { body }
+func (t *gaTr) forStmt(x *ast.ForStmt, c gaCtx, cont func(gaCtx) string) string {
+	bad := func() string {
+		t.fail(x, "a for loop that is not  for i := 0; i < e; i++  with e and i not stored into by the body")
+		return "Panic"
+	}
+	init, ok := x.Init.(*ast.AssignStmt)
+	if !ok || init.Tok != token.DEFINE || len(init.Lhs) != 1 || len(init.Rhs) != 1 || t.src(init.Rhs[0]) != "0" {
+		return bad()
+	}
+	id, ok := init.Lhs[0].(*ast.Ident)
+	if !ok || id.Name == "_" {
+		return bad()
+	}
+	cond, ok := x.Cond.(*ast.BinaryExpr)
+	if !ok || cond.Op != token.LSS || t.src(cond.X) != id.Name {
+		return bad()
+	}
+	post, ok := x.Post.(*ast.IncDecStmt)
+	if !ok || post.Tok != token.INC || t.src(post.X) != id.Name {
+		return bad()
+	}
+	if _, shadows := c.lookup(id.Name); shadows {
+		return bad()
+	}
+	as, decl := gaAssignedNames(x.Body)
+	if as[id.Name] || decl[id.Name] {
+		return bad()
+	}
+	okBound := true
+	ast.Inspect(cond.Y, func(m ast.Node) bool {
+		switch e := m.(type) {
+		case *ast.Ident:
+			if as[e.Name] || as["*"+e.Name] || decl[e.Name] {
+				okBound = false
+			}
+		case *ast.CallExpr:
+			if t.src(e.Fun) != "len" {
+				okBound = false
+			}
+		}
+		return true
+	})
+	if !okBound {
+		return bad()
+	}
+	var pre []string
+	n, tn := t.expr(cond.Y, c, &pre)
+	t.coerce(cond.Y, n, tn, gaK("int"))
+	if len(pre) != 0 {
+		return bad()
+	}
+	body := c
+	body.top = false
+	valName := t.declare(x, &body, id.Name, gaK("int"))
+	return t.loop(x, x.Body, c, body, "(ga_iota "+n+")", gaK("int"), "", valName, pre, cont)
+}
+
+// switch v := e.(type) { case string: .. case func([]int) int: .. default: .. } with e of type interface{}
+func (t *gaTr) typeSwitch(x *ast.TypeSwitchStmt, c gaCtx, cont func(gaCtx) string) string {
+	bad := func(why string) string {
+		t.fail(x, "type switch outside the scheme (%s)", why)
+		return "Panic"
+	}
+	as, ok := x.Assign.(*ast.AssignStmt)
+	if !ok || x.Init != nil || as.Tok != token.DEFINE || len(as.Lhs) != 1 || len(as.Rhs) != 1 {
+		return bad("it must bind a variable")
+	}
+	id, ok := as.Lhs[0].(*ast.Ident)
+	ta, ok2 := as.Rhs[0].(*ast.TypeAssertExpr)
+	if !ok || !ok2 || ta.Type != nil {
+		return bad("it must bind a variable")
+	}
+	if _, shadows := c.lookup(id.Name); shadows {
+		return bad("the bound variable shadows a variable")
+	}
+	var pre []string
+	scrut, ts := t.expr(ta.X, c, &pre)
+	if ts.k != "fn" || len(pre) != 0 {
+		return bad("the value is not an interface{} variable")
+	}
+	if !gaContainsReturn(x) {
+		return bad("no branch returns")
+	}
+	branches := map[string]string{}
+	for _, cl := range x.Body.List {
+		cc := cl.(*ast.CaseClause)
+		key, ty := "", (*gaT)(nil)
+		switch {
+		case cc.List == nil:
+			key, ty = "ga_FnOther", gaK("fn")
+		case len(cc.List) == 1 && t.src(cc.List[0]) == "string":
+			key, ty = "ga_FnString", gaK("string")
+		case len(cc.List) == 1 && t.src(cc.List[0]) == "func([]int) int":
+			key, ty = "ga_FnFunc", gaK("func")
+		default:
+			return bad("a case that is not string, func([]int) int or default")
+		}
+		if _, dup := branches[key]; dup {
+			return bad("a case occurs twice")
+		}
+		inner := c
+		name := t.declare(cc, &inner, id.Name, ty)
+		body := t.stmts(cc.Body, inner, func(c2 gaCtx) string { return cont(c) })
+		if key == "ga_FnOther" {
+			branches[key] = fmt.Sprintf("| ga_FnOther =>\n%s", gaIndent(fmt.Sprintf("let %s := %s in\n%s", name, scrut, body)))
+		} else {
+			branches[key] = fmt.Sprintf("| %s %s =>\n%s", key, name, gaIndent(body))
+		}
+	}
+	if _, has := branches["ga_FnOther"]; !has {
+		branches["ga_FnOther"] = "| ga_FnOther =>\n" + gaIndent(cont(c))
+	}
+	for _, k := range []string{"ga_FnString", "ga_FnFunc"} {
+		if _, has := branches[k]; !has {
+			branches[k] = fmt.Sprintf("| %s _ =>\n%s", k, gaIndent(branches["ga_FnOther"][len("| ga_FnOther =>\n"):]))
+		}
+	}
+	return fmt.Sprintf("match fn_cases %s with\n%s\n%s\n%s\nend", scrut, branches["ga_FnString"], branches["ga_FnFunc"], branches["ga_FnOther"])
+}
+
+// gaTable translates a package level  var name = map[string]func([]int) int{"k": f, ..}
+func gaTable(p *pkgInfo, f *gaFunc) {
+	e, ok := p.vars[f.spec.fn]
+	cl, isLit := e.(*ast.CompositeLit)
+	if !ok || !isLit || gaSrc(p.fset, cl.Type) != "map[string]func([]int) int" {
+		problem("aggregate translation: the table %s of %s is not a map[string]func([]int) int literal", f.spec.fn, f.spec.pkg)
+		return
+	}
+	var entries []string
+	good := true
+	for _, el := range cl.Elts {
+		kv, ok := el.(*ast.KeyValueExpr)
+		if !ok {
+			good = false
+			continue
+		}
+		k, okk := stringOf(p, kv.Key)
+		id, okv := kv.Value.(*ast.Ident)
+		if !okk || !okv {
+			good = false
+			continue
+		}
+		g := gaFuncs[f.spec.pkg+":"+id.Name]
+		if g == nil || !g.done || g.fd == nil || g.recv != nil || len(g.params) != 1 || g.params[0].ty.String() != "[]int" || g.res.k != "int" {
+			good = false
+			continue
+		}
+		entries = append(entries, fmt.Sprintf("  (%s, %s)", coqBytes(k), g.coq))
+	}
+	if !good {
+		problem("aggregate translation: an entry of the table %s of %s is outside the scheme", f.spec.fn, f.spec.pkg)
+		return
+	}
+	f.res = gaMap(gaK("func"))
+	f.text = fmt.Sprintf("(* %s\nvar %s = %s *)\nDefinition %s : list (bytes * (list Z -> outcome Z)) := [\n%s\n].\n", f.spec.pkg, f.spec.fn, gaClean(gaSrc(p.fset, cl)), f.coq, strings.Join(entries, ";\n"))
+	f.ok = true
+}
+
+// ------------------------------------------------------------------ functions
+
+func gaCoqName(sp gaSpec) string {
+	n := strings.ReplaceAll(sp.fn, ".", "_")
+	switch sp.pkg {
+	case gaRoot:
+		return "ga_" + n
+	}
+	return "ga_" + sp.pkg[strings.LastIndex(sp.pkg, "/")+1:] + "_" + n
+}
+
+func gaSignature(p *pkgInfo, f *gaFunc) bool {
+	t := &gaTr{p: p, f: f}
+	fd := f.fd
+	if fd.Recv != nil {
+		if len(fd.Recv.List) != 1 || len(fd.Recv.List[0].Names) != 1 {
+			t.fail(fd, "receiver outside the scheme")
+			return false
+		}
+		ty := t.resolve(fd.Recv.List[0].Type)
+		name := fd.Recv.List[0].Names[0].Name
+		f.recv = &gaVar{name, "v_" + name, ty}
+	}
+	for _, fl := range fd.Type.Params.List {
+		ty := t.resolve(fl.Type)
+		for _, n := range fl.Names {
+			f.params = append(f.params, gaVar{n.Name, "v_" + n.Name, ty})
+		}
+		if len(fl.Names) == 0 {
+			t.fail(fd, "parameter without name")
+		}
+	}
+	if fd.Type.Results == nil || len(fd.Type.Results.List) == 0 {
+		t.fail(fd, "the function has no result")
+		return false
+	}
+	var parts []*gaT
+	for _, fl := range fd.Type.Results.List {
+		if len(fl.Names) != 0 {
+			t.fail(fd, "named results")
+		}
+		parts = append(parts, t.resolve(fl.Type))
+	}
+	if len(parts) == 1 {
+		f.res = parts[0]
+	} else {
+		f.res = gaTupleT(parts...)
+	}
+	return !t.bad
+}
+
+func gaSource(p *pkgInfo, fd *ast.FuncDecl) string {
+	cp := *fd
+	cp.Doc = nil
+	return gaClean(gaSrc(p.fset, &cp))
+}
+
+func gaTranslate(p *pkgInfo, f *gaFunc) {
+	t := &gaTr{p: p, f: f, addrOf: map[string]bool{}}
+	ast.Inspect(f.fd.Body, func(m ast.Node) bool {
+		if ue, ok := m.(*ast.UnaryExpr); ok && ue.Op == token.AND {
+			if id, ok := ue.X.(*ast.Ident); ok {
+				t.addrOf[id.Name] = true
+			}
+		}
+		return true
+	})
+	c := gaCtx{top: true}
+	var sig []string
+	if f.recv != nil {
+		c.vars = append(c.vars, *f.recv)
+		sig = append(sig, fmt.Sprintf("(%s : %s)", f.recv.coq, f.recv.ty.coq()))
+	}
+	for _, v := range f.params {
+		c.vars = append(c.vars, v)
+		sig = append(sig, fmt.Sprintf("(%s : %s)", v.coq, v.ty.coq()))
+	}
+	body := t.stmts(f.fd.Body.List, c, func(c2 gaCtx) string {
+		t.fail(f.fd, "the function can fall off its end")
+		return "Panic"
+	})
+	var b strings.Builder
+	pk := f.spec.pkg
+	if pk == gaRoot {
+		pk = "qframe"
+	}
+	fmt.Fprintf(&b, "(* %s\n%s *)\n", pk, gaSource(p, f.fd))
+	for _, l := range t.loops {
+		b.WriteString(l)
+	}
+	sep := " "
+	if len(sig) == 0 {
+		sep = ""
+	}
+	fmt.Fprintf(&b, "Definition %s%s%s : outcome %s :=\n%s.\n", f.coq, sep, strings.Join(sig, " "), t.resType(), gaIndent(body))
+	f.text = b.String()
+	f.ok = !t.bad
+}
+
+func gaGoldenBlock(golden, name string) (string, bool) {
+	b := "(* BEGIN " + name + " *)\n"
+	e := "(* END " + name + " *)\n"
+	i := strings.Index(golden, b)
+	if i < 0 {
+		return "", false
+	}
+	j := strings.Index(golden[i:], e)
+	if j < 0 {
+		return "", false
+	}
+	return golden[i+len(b) : i+j], true
+}
+
+func genAggr() string {
+	gaFuncs = map[string]*gaFunc{}
+	gaRecs = map[string]*gaRec{}
+	// the vocabulary
+	for _, v := range gaVocabulary {
+		vp := loadPkg(v.pkg)
+		fd, ok := vp.funcs[v.fn]
+		if !ok || fd.Body == nil {
+			problem("aggregate translation: %s not found in %s", v.fn, v.pkg)
+			continue
+		}
+		cp := *fd
+		cp.Doc = nil
+		if !strings.Contains(v.text, "{\n") {
+			cp.Body = nil
+		}
+		if gaSrc(vp.fset, &cp) != v.text {
+			problem("aggregate translation: %s of %s is not the text the fixed vocabulary of the translation stands for", v.fn, v.pkg)
+		}
+	}
+	for _, v := range gaTypeTexts {
+		vp := loadPkg(v.pkg)
+		e, ok := gaFindType(vp, v.name)
+		if !ok || !strings.Contains(gaSrc(vp.fset, e), v.text) {
+			problem("aggregate translation: type %s of %s is not the one the translation stands for (%s)", v.name, v.pkg, v.text)
+		}
+	}
+	golden := ""
+	if fl := flag.Lookup("golden"); fl != nil && fl.Value.String() != "" {
+		if gb, err := os.ReadFile(filepath.Join(fl.Value.String(), "GenAggr.v")); err == nil {
+			golden = string(gb)
+		}
+	}
+	var b strings.Builder
+	b.WriteString(gaPreamble)
+	block := func(name, text string, ok bool) {
+		if !ok {
+			old, found := gaGoldenBlock(golden, name)
+			if !found {
+				return
+			}
+			text = "(* FALLBACK " + name + ": not derivable from the current source; text of the last validated tree *)\n" + old
+		}
+		fmt.Fprintf(&b, "(* BEGIN %s *)\n%s(* END %s *)\n\n", name, text, name)
+	}
+	for _, sp := range gaRecSpecs {
+		r := gaLoadRec(sp)
+		gaRecs[r.name] = r
+		block("ga_"+r.name, r.text(), r.ok)
+	}
+	b.WriteString("Variable cf_apply : CF -> ga_Config -> outcome ga_Config.   (* f(&config) for a groupby.ConfigFunc f: the new config *)\n")
+	b.WriteString("Variable icolumn_Comparable : ga_icolumn_Comparable -> K.   (* an icolumn.Comparable as a column.Comparable *)\n\n")
+	if cp := loadPkg("internal/column"); true {
+		found := false
+		for _, f := range cp.files {
+			for _, d := range f.Decls {
+				if gd, ok := d.(*ast.GenDecl); ok && gd.Tok == token.CONST {
+					cpd := *gd
+					cpd.Doc = nil
+					var names []string
+					for _, sp := range cpd.Specs {
+						vs := sp.(*ast.ValueSpec)
+						for _, n := range vs.Names {
+							names = append(names, n.Name)
+						}
+						if len(vs.Values) == 1 && (len(names) != 1 || gaSrc(cp.fset, vs.Values[0]) != "iota" || vs.Type == nil || gaSrc(cp.fset, vs.Type) != "CompareResult") {
+							names = append(names, "?")
+						}
+					}
+					if strings.Join(names, " ") == "LessThan GreaterThan Equal NotEqual" {
+						found = true
+					}
+				}
+			}
+		}
+		if !found {
+			problem("aggregate translation: the constants of column.CompareResult are not LessThan, GreaterThan, Equal, NotEqual = iota ..")
+		}
+	}
+	for _, sp := range gaSpecs {
+		f := &gaFunc{spec: sp, coq: gaCoqName(sp)}
+		gaFuncs[sp.pkg+":"+sp.fn] = f
+		p := loadPkg(sp.pkg)
+		if _, isVar := p.vars[sp.fn]; isVar {
+			gaTable(p, f)
+			f.done = true
+			block(f.coq, f.text, f.ok)
+			continue
+		}
+		fd, ok := p.funcs[sp.fn]
+		if !ok || fd.Body == nil {
+			problem("aggregate translation: function %s not found in %s", sp.fn, sp.pkg)
+		} else {
+			f.fd = fd
+			if !gaSignature(p, f) {
+				f.fd = nil
+			}
+		}
+		if f.fd != nil {
+			gaTranslate(p, f)
+		}
+		f.done = true
+		block(f.coq, f.text, f.ok)
+	}
+	b.WriteString("End GenAggr.\n")
+	return b.String()
+}
